@@ -27,6 +27,8 @@ from checks import wcommon
 LEVEL = "fault_enumeration"
 WRAP = ("-Wl,--wrap=fopen,--wrap=fwrite,--wrap=fflush,--wrap=fclose",)
 UNKNOWN_CAP = 1000000
+# (fault/abort runs, prefix cuts) planned per tier
+BUDGET = {"quick": (16000, 30000), "thorough": (420000, 260000), "replay": (10 ** 9, 10 ** 9)}
 
 
 def nproc():
@@ -338,6 +340,20 @@ class FullTmpfs:
 # driver
 # --------------------------------------------------------------------------------------
 
+def sweep_stale_dirs():
+    """work directories (and tmpfs mounts) of runs that were killed"""
+    import shutil
+    root = common.scratch_root()
+    for name in os.listdir(root):
+        if not name.startswith("c18-") or not name[4:].isdigit() or os.path.exists("/proc/" + name[4:]):
+            continue
+        d = os.path.join(root, name)
+        for sub in os.listdir(d) if os.path.isdir(d) else []:
+            if sub.startswith("fullfs-") and os.path.ismount(os.path.join(d, sub)):
+                subprocess.run(["umount", "-l", os.path.join(d, sub)], stdout=subprocess.PIPE, stderr=subprocess.STDOUT)
+        shutil.rmtree(d, ignore_errors=True)
+
+
 def model_check(chk):
     """the design-level statement: which variants of the writer/sink composition satisfy the property"""
     from concurrent.futures import ThreadPoolExecutor
@@ -400,6 +416,7 @@ def run(chk, tier, replay):
     chk.add_tlc(r)
 
     binary = common.build_harness("h_sink", extra=WRAP)
+    sweep_stale_dirs()
     fdir = os.path.join(common.scratch_root(), "c18-%d" % os.getpid())
     os.makedirs(fdir, exist_ok=True)
     full_link = os.path.join(fdir, "devfull")
@@ -475,12 +492,28 @@ def _run(chk, tier, replay, binary, fdir, extra_paths):
     # ---- phase 2: prefix sweeps and fault / abort runs
     lines, plan = [], {}
     ncuts = 0
-    for gi, g in enumerate(groups):
-        if gi not in refs or refs[gi][2] is None:
-            continue
+    # budgets keep the tiers inside their time limits: groups are visited alternately from the small and
+    # the large end of the file-size order; a group beyond a budget is skipped for that part (counted)
+    run_budget, cut_budget = BUDGET["replay" if replay else tier]
+    usable = sorted((gi for gi in range(len(groups)) if gi in refs and refs[gi][2] is not None), key=lambda gi: (len(refs[gi][2]), gi))
+    order = []
+    while usable:
+        order.append(usable.pop(0))
+        if usable:
+            order.append(usable.pop())
+    nruns_planned, skipped = 0, {"sink": 0, "trunc": 0}
+    for gi in order:
+        g = groups[gi]
         ops, codec, page, want_trunc, want_sink = g
         fb, nops = refs[gi][2], refs[gi][1]
         plan[gi] = {"pfx": [], "runs": []}
+        is_embedded = gi == len(groups) - 1 and not replay
+        if want_trunc and ncuts + len(fb) > cut_budget and not is_embedded:
+            want_trunc = False
+            skipped["trunc"] += 1
+        if want_sink and nruns_planned + 10 * len(fb) > run_budget:
+            want_sink = False
+            skipped["sink"] += 1
         if want_trunc:
             width = 256
             for lo in range(0, len(fb), width):
@@ -499,6 +532,9 @@ def _run(chk, tier, replay, binary, fdir, extra_paths):
                     rc.path = rc.path.replace("out.parquet", "out-%s.parquet" % rid)
                 plan[gi]["runs"].append((rid, rc))
                 lines.append(run_line(rid, ops, codec, page, rc))
+            nruns_planned += len(rcs)
+    chk.part("plan", groups=len(groups), run_budget=run_budget, cut_budget=cut_budget, groups_beyond_run_budget=skipped["sink"],
+             groups_beyond_cut_budget=skipped["trunc"])
     res, faults2, leaky2 = execute(binary, lines, fdir)
     t0 = tick(t0, "harness (%d lines)" % len(lines))
     fault_by = {}
